@@ -34,8 +34,8 @@ ASSUMPTIONS = [
     "files are written to a per-run temporary directory that is removed afterwards",
 ]
 
-PREFIX_FIXED = ["a", "b", "A", "ab", "", "é", "a b", "a\tb", "GO", "go", "a/b", "1", "a.b"]
-IDENT_FIXED = ["", "1", "2", "a:b", ":", "::x", "a\tb", 'q"uote', "line\nbreak", "cr\rhere", "crlf\r\nx", "é", " lead", "trail ", "a,b", "0001", "'"]
+PREFIX_FIXED = ["a", "b", "A", "ab", "", "é", "a b", "a\tb", "GO", "go", "a/b", "1", "a.b", "e\u0301", "\u212b", "\uff27\uff2f", "\u212a", "\u00df"]
+IDENT_FIXED = ["", "1", "2", "a:b", ":", "::x", "a\tb", 'q"uote', "line\nbreak", "cr\rhere", "crlf\r\nx", "é", " lead", "trail ", "a,b", "0001", "'", "e\u0301", "\u212b", "\ufb01x", "\uff11\uff12", "\uf900", "i\u0307"]
 NAMES = [None, "", "n", "name one", "é", "n\tx"]
 
 
